@@ -353,7 +353,7 @@ theorem epoch_unfold {s : State} {now : Int} {thr : Quotes} {locks : List Lock} 
     ∃ up act snap store bal act' fin,
       activate now s.upcoming s.active = some (up, act) ∧ snapshot s.gauges (refsIds act) = some snap ∧
       distributeLoop ⟨thr, []⟩ locks snap s.gauges [] = some (store, info) ∧
-      subCoins s.balance (infoTotal info) = some bal ∧ finishLoop snap act s.finished = some (act', fin) ∧
+      subCoins s.balance (infoTotal info) = some bal ∧ finishLoop store snap act s.finished = some (act', fin) ∧
       s' = { s with gauges := store, upcoming := up, active := act', finished := fin, balance := bal } := by
   unfold epoch at h
   cases h1 : activate now s.upcoming s.active with
@@ -374,7 +374,7 @@ theorem epoch_unfold {s : State} {now : Int} {thr : Quotes} {locks : List Lock} 
         | none => rw [h4] at h; cases h
         | some bal =>
           rw [h4] at h; simp only at h
-          cases h5 : finishLoop snap act s.finished with
+          cases h5 : finishLoop store snap act s.finished with
           | none => rw [h5] at h; cases h
           | some af =>
             obtain ⟨act', fin⟩ := af
